@@ -65,6 +65,8 @@ func writeEvidence(a *Args, g *agg, shapes, scheds, states, violations int, wall
 		"linearizability":        g.Lin,
 		"runs_per_scenario":      g.PerScen,
 		"overrun_runs_discarded": g.Overruns,
+		"workers_retired_early":  g.Retired,
+		"workers_restarted":      g.Restarted,
 		"known_finding_hits":     g.KnownHits,
 		"known_finding_lines":    knownLines,
 		"real_components":        comp[0],
